@@ -134,6 +134,15 @@ def body(case):
             except Exception as e:
                 out.exc("no-raise|validate", e)
                 break
+            if di == 0:
+                # between the validations the schema is asked for its documentation tree (whole, and below the first
+                # part of some rule path; it may refuse - these schemas need not be prefix-closed): a description of
+                # the rules, which leaves them as they are
+                for fp in [None] + [list(r_.path.parts)[:1] for r_ in S.rules if len(r_.path.parts) >= 1][:2]:
+                    try:
+                        S.to_tree(nested=fp is not None, from_path=fp)
+                    except Exception:
+                        pass
             try:
                 if vd.is_valid is not ex["valid"]:
                     out.add("conjunction", "conjunction" + which, f"perm {pi} doc {di}: is_valid={vd.is_valid!r} expected {ex['valid']}")
